@@ -15,6 +15,22 @@ MAIN = 'cli.call_alt_translation:call_alt_translation_main'
 VPD = 'svgraph.VariantPeptideDict:'
 
 
+def _startswith_bases(fx):
+    out = set()
+    if fx is None:
+        return out
+    lits = dict(fx.d)
+    for name, dexpr in fx.defs.items():
+        if lits.get(name) is True:
+            from sa import sem
+            for a, p in (sem.conj_literals(dexpr, True) or set()):
+                lits.setdefault(a, p)
+    for a, p in lits.items():
+        if p is True and a.endswith(".startswith('M')"):
+            out.add(a[:-len(".startswith('M')")])
+    return out
+
+
 def run(chk, repo):
     chk.clauses = [
         'C09.a only coding transcripts reach the caller; --selenocysteine-termination / --w2f-reassignment are bound to truncate_sec / w2f; '
@@ -76,11 +92,26 @@ def run(chk, repo):
     mt = repo.func(VPD + 'MiscleavedNodes.translational_modification')
     chk.uses(mt)
     mcfg = CFG(mt.node)
-    app = [n.id for n in mcfg.nodes if n.kind == 'stmt' and norm_stmt(n.ast) == 'cur_variants.append(sec.variant)']
-    lab = [n for n in mcfg.nodes if n.kind == 'stmt' and isinstance(n.ast, ast.Assign) and unparse(n.ast.targets[0]) == 'label'
-           and 'variants=cur_variants' in unparse(n.ast.value)]
-    ok = len(app) == 1 and len(lab) == 1 and mcfg.dominates(app[0], lab[0].id)
-    chk.ob('C09.b', 'SECT variant appended before the Sec-truncated label is built', mt.where, ok,
+    from sa import sem
+    nmt0 = sem.nf(repo, mt)
+    ncfg = CFG(nmt0)
+    secloops = [l for l in ast.walk(nmt0) if isinstance(l, ast.For) and unparse(l.iter) == 'selenocysteines' and isinstance(l.target, ast.Name)]
+    ok = len(secloops) == 1
+    n_lab = 0
+    if ok:
+        SEC = secloops[0].target.id
+        for stn in [n for n in ncfg.nodes if n.kind == 'stmt' and any(x is n.ast for b in secloops[0].body for x in ast.walk(b))]:
+            for c in sem.calls_in_stmt(stn.ast, 'create_variant_peptide_id'):
+                n_lab += 1
+                L = kwarg(c, 'variants')
+                if not isinstance(L, ast.Name):
+                    ok = False
+                    continue
+                apps = [m.id for m in ncfg.nodes if m.kind == 'stmt' and isinstance(m.ast, ast.Expr) and isinstance(m.ast.value, ast.Call)
+                        and unparse(m.ast.value) == f"{L.id}.append({SEC}.variant)"]
+                if not any(ncfg.dominates(a, stn.id) for a in apps):
+                    ok = False
+    chk.ob('C09.b', 'SECT variant appended before the Sec-truncated label is built', mt.where, ok and n_lab >= 1,
            'the label of a Sec-truncated peptide can be built without the SECT event', key=mt.qual + '::sect-before-label', fn=mt.qual)
     vt = repo.func(VPD + 'VariantPeptideDict.translational_modification')
     chk.uses(vt)
@@ -160,22 +191,54 @@ def run(chk, repo):
            key=mt.qual + '::stale-seq-in-sec-loop', fn=mt.qual)
 
     chk.rule('C09.f', 'R-GUARD: the full form and the Met-cleaved form are emitted independently (each under its own validity flag only)', 4)
-    cleaved_names = {unparse(n.targets[0]) for n in walk_no_nested(mt.node) if isinstance(n, ast.Assign) and isinstance(n.value, ast.Subscript)
-                     and isinstance(n.value.slice, ast.Slice) and n.value.slice.upper is None and isinstance(n.value.slice.lower, ast.Constant)
-                     and n.value.slice.lower.value == 1}
-    ys = [n for n in mcfg.nodes if n.kind == 'stmt' and isinstance(n.ast, ast.Expr) and isinstance(n.ast.value, ast.Yield)
-          and isinstance(n.ast.value.value, ast.Tuple)]
-    if len(ys) != 4:
-        raise AnalysisError(f"anchor={mt.qual}: expected 4 yields (full / Met-cleaved, plain / Sec-truncated), found {len(ys)}")
-    st = mcfg.must_facts()
-    for i, y in enumerate(ys):
-        first = unparse(y.ast.value.value.elts[0])
-        cleaved = first in cleaved_names
-        fx = st.get(y.id)
-        own, other = ('is_valid_start', 'is_valid') if cleaved else ('is_valid', 'is_valid_start')
-        ok = fx is not None and fx.known(own) is True and fx.known(other) is None
-        chk.ob('C09.f', f"yield #{i} ({'Met-cleaved' if cleaved else 'full'} form `{first}`) is reached exactly under `{own}`", repo.loc(mt, y.ast), ok,
-               f"at this yield `{own}` is {fx.known(own) if fx else None} and `{other}` is {fx.known(other) if fx else None}: the "
-               f"{'Met-cleaved' if cleaved else 'full'} form must be emitted whenever `{own}` holds and must not depend on `{other}` "
+    from sa import sem
+    nmt = sem.nf(repo, mt)
+    chains = sem.block_chains(nmt)
+    ysites = sem.facts_where(nmt, lambda st: isinstance(st, ast.Expr) and isinstance(st.value, ast.Yield) and isinstance(st.value.value, ast.Tuple))
+    if len(ysites) < 4:
+        raise AnalysisError(f"anchor={mt.qual}: expected at least 4 yields (full / Met-cleaved, plain / Sec-truncated), found {len(ysites)}")
+
+    def valid_args(fx, st, truth=True):
+        """expanded argument texts S for which `self.is_valid_seq(S, pool, denylist)` is known `truth` at the site"""
+        out = set()
+        if fx is None:
+            return out
+        lits = dict(fx.d)
+        for name, dexpr in fx.defs.items():
+            if lits.get(name) is True:
+                for a, p in (sem.conj_literals(dexpr, True) or set()):
+                    lits.setdefault(a, p)
+        for a, p in lits.items():
+            if p is truth and 'is_valid_seq(' in a:
+                try:
+                    e = ast.parse(a, mode='eval').body
+                except SyntaxError:
+                    continue
+                for c in ast.walk(e):
+                    if isinstance(c, ast.Call) and call_name(c) == 'is_valid_seq' and c.args:
+                        out.add(unparse(sem.expand_names(nmt, st, c.args[0], chains=chains)))
+        return out
+    for i, (y, fx) in enumerate(ysites):
+        E = sem.expand_names(nmt, y, y.value.value.elts[0], chains=chains)
+        cleaved = isinstance(E, ast.Subscript) and isinstance(E.slice, ast.Slice) and E.slice.upper is None and unparse(E.slice.lower) == '1'
+        full_txt = unparse(E.value) if cleaved else unparse(E)
+        sec = '[:' in full_txt
+        known_valid = valid_args(fx, y)
+        if cleaved:
+            mb = set()
+            for b in _startswith_bases(fx):
+                try:
+                    mb.add(unparse(sem.expand_names(nmt, y, ast.parse(b, mode='eval').body, chains=chains)))
+                except SyntaxError:
+                    pass
+            ok = unparse(E) in known_valid and full_txt not in known_valid and sem.known(fx, 'is_start_codon') is True and full_txt in mb
+            own, other = 'the Met-cleaved form is valid, the peptide begins at the start codon with M', 'the full form'
+        else:
+            ok = full_txt in known_valid and (full_txt + '[1:]') not in known_valid and sem.known(fx, 'is_start_codon') is None
+            own, other = 'the full form is valid', 'the Met-cleaved form / the start codon'
+        chk.ob('C09.f', f"yield #{i} ({'Met-cleaved' if cleaved else 'full'} {'Sec-truncated ' if sec else ''}form `{unparse(E)[:50]}`) is reached exactly when {own}",
+               mt.where, ok,
+               f"at this yield the validity facts are {sorted(known_valid)} (is_start_codon: {sem.known(fx, 'is_start_codon')}): the "
+               f"{'Met-cleaved' if cleaved else 'full'} form must be emitted whenever {own} and must not depend on {other} "
                "(a Met-leading peptide of max_length + 1 residues has a valid cleaved form although the full form is invalid)",
-               key=f"{mt.qual}::yield-independent::{'sec' if i >= 2 else 'plain'}::{'cleaved' if cleaved else 'full'}", fn=mt.qual)
+               key=f"{mt.qual}::yield-independent::{'sec' if sec else 'plain'}::{'cleaved' if cleaved else 'full'}", fn=mt.qual)
